@@ -134,7 +134,9 @@ var DefaultProxyConfig = ProxyConfig{
 func proxyRaw(t *ProxyTarget, c echo.Context, config ProxyConfig) http.Handler {
 	var dialFunc func(ctx context.Context, network, addr string) (net.Conn, error)
 	if transport, ok := config.Transport.(*http.Transport); ok {
-		if transport.TLSClientConfig != nil {
+		// TLSClientConfig being set does not mean that the target speaks TLS: net/http fills the field
+		// in on the first round trip of a Transport. Like the reverse proxy, go by the target's scheme.
+		if transport.TLSClientConfig != nil && (t.URL.Scheme == "https" || t.URL.Scheme == "wss") {
 			d := tls.Dialer{
 				Config: transport.TLSClientConfig,
 			}
